@@ -251,7 +251,34 @@ def make_native(yp, op, nstate):
     params = ",".join("a%d" % i for i in range(arity))
     ns = {"body": body}
     exec("def f(%s):\n    yield from body([%s])\n" % (params, params), ns)
-    return ns["f"]
+    f = ns["f"]
+    # the kinds of callable an application registers: a plain generator function, one behind a decorator that
+    # uses functools.wraps, a bound method, a functools.partial, an object with __call__ (the arity inferred
+    # by register_function is that of the signature in every case)
+    kinds = ("plain", "wrapped", "method", "partial", "object")
+    kind = op.get("ckind") or (kinds[(sum(map(ord, fid)) + arity) % len(kinds)] if style == "inferred" else "plain")
+    if kind == "wrapped":
+        import functools
+
+        def deco(g):
+            @functools.wraps(g)
+            def w(*a, **k):
+                return g(*a, **k)
+            return w
+        return deco(f)
+    if kind == "method":
+        exec("class H:\n    def m(self, %s):\n        yield from body([%s])\n" % (params, params) if arity else
+             "class H:\n    def m(self):\n        yield from body([])\n", ns)
+        return ns["H"]().m
+    if kind == "partial":
+        import functools
+        exec("def g(tag, %s):\n    yield from body([%s])\n" % (params, params) if arity else "def g(tag):\n    yield from body([])\n", ns)
+        return functools.partial(ns["g"], "tag")
+    if kind == "object":
+        exec("class O:\n    def __call__(self, %s):\n        yield from body([%s])\n" % (params, params) if arity else
+             "class O:\n    def __call__(self):\n        yield from body([])\n", ns)
+        return ns["O"]()
+    return f
 
 
 # ---------------------------------------------------------------- executing a behaviour
